@@ -967,6 +967,33 @@ def drv_reference(case):
         out.append(res)
     return [{"op": "ref", "res": out}]
 
+def drv_shared_build(case):
+    """two models built from the SAME Python objects for their equal sub-recipes: building (and querying) the second one must leave
+    the first one as it was, and each must answer like a model built alone from its own fresh objects"""
+    import puan.modules.configurator as cc
+    tok = proj.Tok()
+    def state(o):
+        st = {"node": proj.node(o, tok)}
+        for op in (["cfg_poly", "default_prios", "select"] if isinstance(o, cc.StingyConfigurator) else ["to_poly", "flags"]):
+            try:
+                st[op] = _abs_call(o, op, None, None, tok, case)[0]
+            except (KeyboardInterrupt, SystemExit):
+                raise
+            except BaseException as ex:
+                st[op] = {"raised": type(ex).__name__}
+        return st
+    r1, r2 = case["first"], case["second"]
+    f1, f2 = state(B.build(r1)), state(B.build(r2))
+    memo = {}
+    o1 = B.build(r1, memo=memo)
+    before = state(o1)
+    o2 = B.build(r2, memo=memo)
+    after_build = proj.node(o1, tok)
+    s2 = state(o2)
+    after = state(o1)
+    return [{"op": "shared_build", "first_before": before, "first_after_build": after_build, "first_after": after, "first_fresh": f1,
+             "second": s2, "second_fresh": f2}]
+
 def core_sha(obj):
     return _hashlib.sha256(json.dumps(obj, sort_keys=True, default=str).encode()).hexdigest()[:20]
 
